@@ -457,6 +457,48 @@ pub struct Ctx<'a> {
     pub rt: &'a tokio::runtime::Runtime,
     pub tmps: &'a mut TmpFiles,
     pub wlog: Arc<Mutex<Vec<EventData>>>,
+    // what a freshly built twin needs (C18): model spec, adapter spec as last set, components
+    pub cur_spec: String,
+    pub cur_adapter: String,
+    pub cur_file: Option<String>,
+    pub ufuns: Vec<(String, String)>,
+    pub rm_max: usize,
+    pub flags: [bool; 4], // enabled, auto_save, auto_build, auto_notify
+}
+
+// the fresh twin: same model text, a copy of the adapter's file, same components
+fn build_fresh(cx: &mut Ctx) -> Option<Enforcer> {
+    let rt = cx.rt;
+    let conf = conf_of_spec(&cx.cur_spec);
+    let model = rt.block_on(DefaultModel::from_str(&conf)).ok()?;
+    let adapter: Box<dyn Adapter> = match &cx.cur_file {
+        Some(path) => {
+            let copy = format!("{}.fresh", path);
+            std::fs::copy(path, &copy).ok()?;
+            cx.tmps.0.push(copy.clone());
+            Box::new(casbin::FileAdapter::new(copy))
+        }
+        None => {
+            if cx.cur_adapter == "N" {
+                Box::new(NullAdapter)
+            } else {
+                panic!("FRESH needs a file or null adapter")
+            }
+        }
+    };
+    let mut e = rt.block_on(Enforcer::new(model, Boxed(adapter))).ok()?;
+    if cx.rm_max != 10 {
+        let rm = Arc::new(parking_lot::RwLock::new(DefaultRoleManager::new(cx.rm_max)));
+        e.set_role_manager(rm).ok()?;
+    }
+    for (n, t) in &cx.ufuns {
+        e.add_function(n, ufun_of(t));
+    }
+    e.enable_auto_save(cx.flags[1]);
+    e.enable_auto_build_role_links(cx.flags[2]);
+    e.enable_auto_notify_watcher(cx.flags[3]);
+    e.enable_enforce(cx.flags[0]);
+    Some(e)
 }
 
 // one step (operation or query) against any enforcer type
@@ -677,14 +719,51 @@ macro_rules! do_step {
 fn run_history<E: CoreApi + MgmtApi + RbacApi>(e: &mut E, steps: &str, cx: &mut Ctx) -> String {
     let mut out: Vec<String> = vec![];
     let mut poisoned = false;
+    let mut fresh: Option<Enforcer> = None;
     if steps != "-" {
         for st in steps.split('|') {
             if poisoned {
                 out.push("X".to_string());
                 continue;
             }
-            let f: Vec<&str> = st.split(':').collect();
+            let mut f: Vec<&str> = st.split(':').collect();
+            // configuration tracking for the fresh twin
+            match f[0] {
+                "SM" => cx.cur_spec = f[1].to_string(),
+                "SA" => cx.cur_adapter = f[1].to_string(),
+                "SR" => cx.rm_max = f[1].parse().unwrap(),
+                "AF" => cx.ufuns.push((dec(f[1]), f[2].to_string())),
+                "EE" => cx.flags[0] = f[1] == "1",
+                "ES" => cx.flags[1] = f[1] == "1",
+                "EB" => cx.flags[2] = f[1] == "1",
+                "EN" => cx.flags[3] = f[1] == "1",
+                _ => {}
+            }
+            if f[0] == "FRESH" {
+                fresh = build_fresh(cx);
+                out.push(if fresh.is_some() { "1".to_string() } else { "E".to_string() });
+                continue;
+            }
+            if f[0].starts_with("?2") {
+                let q = format!("?{}", &f[0][2..]);
+                f[0] = &q;
+                let r = match fresh.as_mut() {
+                    Some(fe) => catch_unwind(AssertUnwindSafe(|| do_step!(fe, &f, cx))).unwrap_or_else(|_| "P".to_string()),
+                    None => "NOFRESH".to_string(),
+                };
+                out.push(r);
+                continue;
+            }
+            let n_tmp_before = cx.tmps.0.len();
             let r = catch_unwind(AssertUnwindSafe(|| do_step!(e, &f, cx)));
+            if f[0] == "SA" {
+                // a file adapter just created is the last temporary file
+                cx.cur_file = if cx.tmps.0.len() > n_tmp_before && (f[1].starts_with("F@") || f[1].starts_with("Ft@")) {
+                    cx.tmps.0.last().cloned()
+                } else {
+                    None
+                };
+            }
             match r {
                 Ok(s) => out.push(s),
                 Err(_) => {
@@ -712,7 +791,18 @@ pub fn run_eng(toks: &[&str], cached: bool) -> String {
     };
     let adapter = Boxed(build_adapter(toks[2], &mut tmps, &rt));
     let wlog = Arc::new(Mutex::new(vec![]));
-    let mut cx = Ctx { rt: &rt, tmps: &mut tmps, wlog: wlog.clone() };
+    let cur_file = if toks[2].starts_with("F@") || toks[2].starts_with("Ft@") { tmps.0.last().cloned() } else { None };
+    let mut cx = Ctx {
+        rt: &rt,
+        tmps: &mut tmps,
+        wlog: wlog.clone(),
+        cur_spec: toks[1].to_string(),
+        cur_adapter: toks[2].to_string(),
+        cur_file,
+        ufuns: vec![],
+        rm_max: 10,
+        flags: [true, true, true, true],
+    };
     if cached {
         match rt.block_on(CachedEnforcer::new(model, adapter)) {
             Err(e) => format!("new={}", err_class(&e)),
